@@ -20,6 +20,7 @@ import glob
 import json
 import os
 import re
+import time
 from concurrent.futures import ThreadPoolExecutor
 
 import vf
@@ -41,8 +42,9 @@ def _parallel(jobs, width):
 
 
 def scan_repo():
-    """Model types in the tree: pkg/trait/<pkg>/model.go declares `type Model struct`, memory.go a MemoryDevice."""
-    res = {"models": [], "memory_devices": [], "other_resource_holders": []}
+    """Model types in the tree: pkg/trait/<pkg>/model.go declares `type Model struct`, memory.go a MemoryDevice,
+    model_server.go the ModelServer (RPC layer) of the model."""
+    res = {"models": [], "memory_devices": [], "other_resource_holders": [], "servers": [], "hooks": []}
     root = os.path.join(vf.REPO, "pkg", "trait")
     for d in sorted(os.listdir(root)):
         p = os.path.join(root, d)
@@ -50,11 +52,17 @@ def scan_repo():
             continue
         if os.path.exists(os.path.join(p, "model.go")):
             res["models"].append(d)
+        if os.path.exists(os.path.join(p, "model_server.go")):
+            res["servers"].append(d)
         for f in sorted(glob.glob(os.path.join(p, "*.go"))):
             base = os.path.basename(f)
-            if base.endswith("_test.go") or base.endswith(".pb.go") or base == "model.go":
+            if base.endswith("_test.go") or base.endswith(".pb.go"):
                 continue
             txt = open(f, errors="replace").read()
+            if re.search(r"Intercept(Before|After)\(|WithExpectedCheck\(|With(Created|ID)Callback\(", txt):
+                res["hooks"].append(d + "/" + base)
+            if base == "model.go":
+                continue
             if re.search(r"resource\.New(Value|Collection)\(", txt):
                 (res["memory_devices"] if base.startswith("memory") else res["other_resource_holders"]).append(d + "/" + base)
     return res
@@ -62,21 +70,39 @@ def scan_repo():
 
 def run(ctx):
     thorough = ctx.tier == "thorough"
+    phases, t0 = {}, time.time()
+
+    def phase(name):
+        nonlocal t0
+        phases[name] = round(time.time() - t0, 1)
+        t0 = time.time()
+    ctx.cov["phase_s"] = phases
     only = [t for t in os.environ.get("C07_TARGETS", "").split(",") if t]
 
     # 1. MC: the design statements hold for the reference design and each deviation is caught
     mcc = {"NCells": 6 if thorough else 5, "NVals": 2}
-    ctx.mc("Isolation", "IsolationMC.cfg", consts=mcc, workers=min(vf.NCPU, 8), timeout=1500)
-    for cfg, must in (("IsolationNegStoreIn.cfg", "StoreIsolated"), ("IsolationNegInPlace.cfg", "HandedOutStable"),
-                      ("IsolationNegReadEdits.cfg", "ReadOnlyFrame")):
-        neg = ctx.tlc("Isolation", cfg, consts={"NCells": 4, "NVals": 2}, workers=2, timeout=600)
-        if must not in neg.violated:
+    negs = (("IsolationNegStoreIn.cfg", "StoreIsolated"), ("IsolationNegInPlace.cfg", "HandedOutStable"),
+            ("IsolationNegReadEdits.cfg", "ReadOnlyFrame"), ("IsolationNegFirstWrite.cfg", "StoreIsolated"),
+            ("IsolationNegHookEditsOld.cfg", "HandedOutStable"))
+    small = {"NCells": 4, "NVals": 2}
+    jobs = [("mc", lambda: ctx.mc("Isolation", "IsolationMC.cfg", consts=mcc, workers=4, timeout=1500)),
+            # the first-write deviation cannot be reached from constructions that already hold a value: the walks
+            # must (and do) carry the construction, "absent" included
+            ("present", lambda: ctx.mc("Isolation", "IsolationFirstWritePresent.cfg", consts=small, workers=1, timeout=600))]
+    for cfg, _ in negs:
+        jobs.append((cfg, (lambda cfg: lambda: ctx.tlc("Isolation", cfg, consts=small, workers=1, timeout=600))(cfg)))
+    res = _parallel(jobs, len(jobs))
+    for cfg, must in negs:
+        if must not in res[cfg].violated:
             raise vf.Inconclusive("Isolation.tla with the deviation of %s does not violate %s: the statement is vacuous\n%s"
-                                  % (cfg, must, neg.out[-2000:]))
-    ctx.cov["design_variants_caught"] = ["StoreIn->StoreIsolated", "InPlace->HandedOutStable", "ReadEdits->ReadOnlyFrame"]
+                                  % (cfg, must, res[cfg].out[-2000:]))
+    ctx.cov["design_variants_caught"] = ["StoreIn->StoreIsolated", "InPlace->HandedOutStable", "ReadEdits->ReadOnlyFrame",
+                                         "FirstWriteKeeps(from an object holding nothing)->StoreIsolated",
+                                         "HookEditsOld(interceptor/callback writes into the old value)->HandedOutStable"]
 
+    phase("mc")
     # 2. Gen: walks for a generic object
-    nwalks = int(os.environ.get("C07_WALKS", "0")) or (1000 if thorough else 50)
+    nwalks = int(os.environ.get("C07_WALKS", "0")) or (1000 if thorough else 30)
     gen = ctx.tlc("Isolation", "IsolationGen.cfg", workers=1, timeout=1500,
                   consts={"NCases": nwalks, "MinOps": 20, "MaxOps": 100 if thorough else 60})
     walks = gen.cases()
@@ -92,7 +118,19 @@ def run(ctx):
         raise vf.Inconclusive("isolation -list did not print the target table:\n" + p.stdout[-2000:])
     tree = scan_repo()
     bound_pkgs = {t["pkg"] for t in listing if t["type"].endswith(".Model")}
+    srv_pkgs = {t["pkg"] for t in listing if t.get("layer") == "server"}
+    ctx.cov["servers_in_tree"] = tree["servers"]
+    ctx.cov["servers_covered"] = sorted(d for d in tree["servers"] if d in srv_pkgs)
+    ctx.cov["servers_uncovered"] = sorted(d for d in tree["servers"] if d not in srv_pkgs)
+    # files that hand the live old value to an interceptor or callback; each must belong to a bound layer
+    ctx.cov["files_with_write_hooks"] = {
+        f: ("server target" if f.endswith("model_server.go") and f.split("/")[0] in srv_pkgs else
+            "memory target" if f.split("/")[1].startswith("memory") else
+            "model target" if f.split("/")[0] in bound_pkgs else "NOT BOUND")
+        for f in tree["hooks"]}
     ctx.cov["targets"] = {t["name"]: {"type": t["type"], "operations": t["ops"]} for t in listing}
+    ctx.cov["constructions"] = "every walk names its construction (Isolation.tla InitKinds): absent = Value without initial " \
+                               "value / empty collection / package defaults, present = initial value / records / positions"
     ctx.cov["models_in_tree"] = tree["models"]
     ctx.cov["models_covered"] = sorted(d for d in tree["models"] if d in bound_pkgs)
     ctx.cov["models_uncovered"] = sorted(d for d in tree["models"] if d not in bound_pkgs)
@@ -107,6 +145,7 @@ def run(ctx):
     if not names:
         raise vf.Inconclusive("no target selected")
 
+    phase("gen+build+list")
     # 4. the real objects
     outdir = ctx.path("obs")
     os.makedirs(outdir, exist_ok=True)
@@ -125,20 +164,45 @@ def run(ctx):
         if not os.path.exists(os.path.join(outdir, n + ".ndjson")):
             raise vf.Inconclusive("harness wrote no observations for target %s" % n)
 
+    phase("harness")
     # 5. every logged step against the statements of Isolation.tla
-    def trace(n):
+    # (a few TLC runs over concatenated observation files: one JVM start per group, not per target)
+    ngroups = max(1, min(len(names), vf.NCPU // 2))
+    groups = [names[g::ngroups] for g in range(ngroups)]
+    placed = {}         # target -> (group, first line, number of lines)
+    for g, members in enumerate(groups):
+        at = 0
+        with open(ctx.path("group-%d.ndjson" % g), "w") as f:
+            for n in members:
+                k = 0
+                for line in open(os.path.join(outdir, n + ".ndjson")):
+                    if line.strip():
+                        f.write(line if line.endswith("\n") else line + "\n")
+                        k += 1
+                placed[n] = (g, at, k)
+                at += k
+
+    def trace(g):
         return lambda: ctx.tlc("IsolationTrace", "IsolationTrace.cfg", workers=1, timeout=3000,
-                               files={"obs.ndjson": os.path.join(outdir, n + ".ndjson")})
-    traces = _parallel([(n, trace(n)) for n in names], vf.NCPU // 2)
+                               files={"obs.ndjson": ctx.path("group-%d.ndjson" % g)})
+    gtraces = _parallel([(g, trace(g)) for g in range(ngroups)], ngroups)
+    gbad = {}
+    for g in range(ngroups):
+        total = sum(placed[n][2] for n in groups[g])
+        if not any(l.startswith('"CHECKED %d"' % total) for l in gtraces[g].out.splitlines()):
+            raise vf.Inconclusive("trace check of %s did not cover all %d observations:\n%s" % (groups[g], total, gtraces[g].out[-3000:]))
+        gbad[g] = gtraces[g].cases("BAD ")
+    phase("trace")
     per = {}
     panics = {}
     for n in names:
-        tr, lines = traces[n], ctx.read_ndjson(os.path.join(outdir, n + ".ndjson"))
-        if not any(l.startswith('"CHECKED %d"' % len(lines)) for l in tr.out.splitlines()):
-            raise vf.Inconclusive("trace check of %s did not cover all %d observations:\n%s" % (n, len(lines), tr.out[-3000:]))
+        lines = ctx.read_ndjson(os.path.join(outdir, n + ".ndjson"))
+        g, first, k = placed[n]
+        if k != len(lines):
+            raise vf.Inconclusive("observation file of %s changed while it was being checked" % n)
         ctx.count(len(lines))
         ctx.cov["traces_validated_against_impl"] += nwalks
-        bad = tr.cases("BAD ")
+        bad = [{"line": b["line"] - first, "fails": b["fails"]} for b in gbad[g] if first < b["line"] <= first + k]
         st = {"walks": nwalks, "steps": len(lines), "bad_lines": len(bad), "crossings_in": 0, "crossings_out": 0,
               "handles_compared": 0, "scribbles": 0, "rechecks": 0, "max_live": 0, "ops_run": {}, "aliased_with_caller_message": 0}
         for b in bad:
@@ -174,6 +238,7 @@ def run(ctx):
         per[n] = st
         for o in [l for l in lines if l["kind"] == "call" and l["nout"] > 0][:1] + [l for l in lines if l["kind"] == "scribble"][:1]:
             ctx.sample(o, limit=8)
+    phase("collect")
     ctx.cov["per_target"] = per
     ctx.cov["steps_validated"] = sum(v["steps"] for v in per.values())
     if panics:
